@@ -1,2 +1,44 @@
-(** Theorems for C18: filled in below as the proofs land. *)
-From JL Require Import Base.Json.
+(** * C18: the jsonlogic command is a faithful, chainable wrapper of the library.
+    Statements only; proofs are in Proofs/BoundaryFacts.v.  (Model part: the logic of
+    src/bin.rs::main over what the text parser made of the two texts.  clap, process exit codes,
+    pipes and serde_json's text parser are exercised by the correspondence run: the real binary
+    is executed on generated texts in the three forms and compared with this model.) *)
+From Coq Require Import List NArith.
+From JL Require Import Base.Json Base.Str Base.JsonText Base.Monad Model.Eval Model.Boundary Proofs.BoundaryFacts.
+Import ListNotations.
+
+(** exit 0 exactly when both texts parse and evaluation succeeds; stdout is then the log lines
+    followed by exactly one line holding the serialised result *)
+Theorem C18_success :
+  forall logic data out,
+    cli logic data = (out, 0%N) <->
+    exists r d logs v, logic = Some r /\ data = Some d /\ apply r d = (logs, Ok v) /\
+                       out = map json_text logs ++ [json_text v].
+Proof. exact cli_success. Qed.
+Print Assumptions C18_success.
+
+(** on failure: a non-zero status and no result line (nothing at all for unparsable texts) *)
+Theorem C18_failure :
+  forall logic data out code,
+    cli logic data = (out, code) -> code <> 0%N ->
+    (logic = None /\ out = []) \/ (data = None /\ out = []) \/
+    (exists r d logs, logic = Some r /\ data = Some d /\ fst (apply r d) = logs /\ out = map json_text logs /\
+                      forall v, snd (apply r d) <> Ok v).
+Proof. exact cli_failure. Qed.
+Print Assumptions C18_failure.
+
+Theorem C18_three_forms :
+  forall logic data,
+    cli_form AsArgument logic data = cli_form StdinNoArgument logic data /\
+    cli_form StdinNoArgument logic data = cli_form StdinDash logic data.
+Proof. exact cli_three_forms. Qed.
+Print Assumptions C18_three_forms.
+
+(** chaining, for any text parser that reads back what the serialiser writes *)
+Theorem C18_chain :
+  forall (parse_json : str -> parsed_text), (forall v, parse_json (json_text v) = Some v) ->
+  forall r1 d r2 v1, apply r1 d = ([], Ok v1) ->
+  forall line, cli (Some r1) (Some d) = ([line], 0%N) ->
+    cli (Some r2) (parse_json line) = cli (Some r2) (Some v1).
+Proof. exact cli_chain. Qed.
+Print Assumptions C18_chain.
